@@ -98,7 +98,7 @@ replay = mc.generic_replay
 
 META = {
     'technique': 'TLC-enumerated outer/inner timelines of OpsMerge.tla (lanes with free same-instant order; transducer checked against a closed-form statement of the property in the model) replayed on the real merge operators on TestScheduler',
-    'level': 'OpsMerge.tla states merge_all / merge(max_concurrent) / merge(sources...) / flat_map / flat_map_indexed / concat_map twice: as a handler-level transducer over an active list, a queue and outerDone, and as a closed predicate on (scenario, output, subscription log) - per-inner order at original instants, nothing missing before the end, first error terminates, completion exactly when the outer and every inner completed, subscriptions opened in arrival order when a slot is free and closed at the inner terminal or at the end. TLC checks the first against the second plus grammar / released / concurrency / no-idle-slot invariants in every state of every enumerated scenario and exports every scenario with all outcomes the tie policy allows; each scenario is run on the real operator with cold, hot and synchronously-emitting test sources and must equal one allowed outcome on output stream with times, terminal, per-inner subscription intervals and outer subscription interval. Exhaustive for the stated bounds, simulated beyond.',
+    'level': 'OpsMerge.tla states merge_all / merge(max_concurrent) / merge(sources...) / flat_map / flat_map_indexed / concat_map twice: as a handler-level transducer over an active list, a queue and outerDone, and as a closed predicate on (scenario, output, subscription log) - per-inner order at original instants, nothing missing before the end, first error terminates, completion exactly when the outer and every inner completed, subscriptions opened in arrival order when a slot is free and closed at the inner terminal or at the end. TLC checks the first against the second plus grammar / released / concurrency / no-idle-slot invariants in every state of every enumerated scenario and exports every scenario with all outcomes the tie policy allows; each scenario is run on the real operator with cold, hot and synchronously-emitting test sources and must equal one allowed outcome on output stream with times, terminal, per-inner subscription intervals and outer subscription interval. Exhaustive for the stated bounds, simulated beyond. Growth (reported as model drift only, never as a violation of C11): Expand.tla - the operator expand as work queue + active count on lanes, checked against a closed statement over the expansion tree and replayed the same way.',
     'note': 'TLC; codec of props/merge_common.py (incl. a cold test source that emits its time-0 messages inside subscribe); TestScheduler (verified by C28); single thread',
     'ref': 'DESIGN.md 6 C11, App. A.7, App. C',
 }
